@@ -83,6 +83,10 @@ func catalog(p ScenParams) *WSpec {
 		j := ProcSpec{Name: "j", Kind: kind, Ins: []string{"a", "b"}, Outs: []OutSpec{{Name: "out", Pattern: "{i:a}.j"}}}
 		w.Procs = []ProcSpec{src, src2, simpleProc("p", kind), j}
 		w.Edges = []Edge{fe("src", "out", "p", "in"), fe("p", "out", "j", "a"), fe("src2", "out", "j", "b")}
+	case "gsplit": // src -> FileSplitter -> {Q, R}: fan-out of IPs whose audit info is not loaded yet
+		spl := ProcSpec{Name: "split", Kind: "splitter", Ins: []string{"file"}}
+		w.Procs = []ProcSpec{src, spl, simpleProc("q", kind), simpleProc("r", kind)}
+		w.Edges = []Edge{fe("src", "out", "split", "file"), fe("split", "split_file", "q", "in"), fe("split", "split_file", "r", "in")}
 	case "gjoin": // src(k) -> StreamToSubStream -> {i:x|join:SEP}
 		f := strings.SplitN(p.Extra, "|", 2) // "SEP|modifier"
 		j := ProcSpec{Name: "j", Kind: "joiner", JoinSep: f[0]}
